@@ -553,6 +553,51 @@ def tdiv_q_2exp (w u cnt : Nat) (s : St) : R St := do
       let s ← mpn_copy true wp 0 up limb_cnt wsize s          -- :56 MPN_COPY_INCR
       pure (s.setSize w (if usize ≥ 0 then (wsize : Int) else -(wsize : Int)))     -- :59
 
+/-- cfdiv_q_2exp (w, u, cnt, dir) of mpz/cfdiv_q_2exp.c:33-91 (`dir = 1`: mpz_cdiv_q_2exp, `dir = -1`: mpz_fdiv_q_2exp).
+    With `w = u` the shift overwrites the low limbs of u: the C looks at the limbs it is going to skip BEFORE the
+    shift (:57-62). -/
+def cfdiv_q_2expV (V : Variant) (w u cnt : Nat) (dir : Int) (s : St) : R St := do
+  let usize := s.size u                                       -- cfdiv_q_2exp.c:40
+  let abs_usize := usize.natAbs                               -- :41
+  let limb_cnt := cnt / 64                                    -- :42
+  let wsize : Int := (abs_usize : Int) - (limb_cnt : Int)     -- :43
+  if wsize ≤ 0 then do                                        -- :44
+    let s ← s.storeAt (s.ptr w) 0 [1]                         -- :47 PTR(w)[0] = 1  (no realloc: relies on ALLOC ≥ 1)
+    pure (s.setSize w (if usize = 0 ∨ ¬ sameSign usize dir then 0 else dir))    -- :48
+  else
+    let wsize := wsize.toNat
+    let s := s.mpzRealloc w (wsize + 1)                       -- :53
+    let up := s.ptr u                                         -- :57
+    let rmask : Bool := sameSign usize dir                    -- :59
+    let lowNonzero (s : St) : R Bool := do                    -- :60-62 for (i = 0; i < limb_cnt && round == 0; i++) round = up[i]
+      let lo ← s.loadAt up 0 limb_cnt
+      pure (decide (val lo ≠ 0))
+    let round0 ← (if rmask ∧ V.roundBeforeShift then lowNonzero s else pure false)
+    let wp := s.ptr w                                         -- :64
+    let c := cnt % 64                                         -- :65
+    let (round1, wsize, s) ← (if c ≠ 0 then do                -- :66
+        let r ← mpn_rshift wp 0 up limb_cnt wsize c s         -- :68
+        let top ← limbAt r.2 wp (wsize - 1)                   -- :69
+        pure (rmask && decide (r.1 ≠ 0), wsize - (if top = 0 then 1 else 0), r.2)
+      else do
+        let s ← mpn_copy true wp 0 up limb_cnt wsize s        -- :72
+        pure (false, wsize, s))
+    let round0 ← (if rmask ∧ !V.roundBeforeShift then lowNonzero s else pure round0)   -- (wrong variant: after the shift)
+    let (wsize, s) ← (if round0 || round1 then                -- :74
+        if wsize ≠ 0 then do                                  -- :76
+          let l ← s.load wp wsize                             -- :79 cy = mpn_add_1 (wp, wp, wsize, 1)
+          let v := val l + 1
+          let s ← s.storeAt wp 0 (toLimbs (wsize + 1) v)      -- :80 wp[wsize] = cy
+          pure (wsize + v / B ^ wsize, s)                     -- :81
+        else do
+          let s ← s.storeAt wp 0 [1]                          -- :86
+          pure (1, s)                                         -- :87
+      else pure (wsize, s))
+    pure (s.setSize w (if usize ≥ 0 then (wsize : Int) else -(wsize : Int)))    -- :90
+
+def cdiv_q_2exp (w u cnt : Nat) := cfdiv_q_2expV .c w u cnt 1
+def fdiv_q_2exp (w u cnt : Nat) := cfdiv_q_2expV .c w u cnt (-1)
+
 /-! ## mpz_and, mpz_ior, mpz_xor, mpz_com: pointers fetched early, re-read after the reallocation -/
 
 /-- what a sign case of and.c / ior.c / xor.c does before its limb loops: which operands were replaced by a TMP copy
